@@ -244,4 +244,24 @@ def EraseSpec : Prop :=
       t'.toList = SMap.erase t.toList key ∧ r = SMap.next t.toList key ∧
       (t'.size, t'.rs) = (if SMap.stored t.toList key then afterErase t.size t.rs else (t.size, t.rs))
 
+/-- **the `while (true)` of `erase(tree_iterator)`** (CO_Tree.cc:551): from a used node `(i, o)` the
+    hole sinks — pulling up the in-order predecessor or successor — to a node `(e, oe)` of the
+    same subtree with no used child; fuel `max_depth` suffices.  `t2` = the tree after
+    `itr.index() = unused_index`. -/
+def EraseSinkSpec : Prop :=
+  ∀ (t : Tree) (i o : Nat),
+    t.Shape → SMap.Sorted t.toList → t.UpClosed → t.IsNode i o → t.isUnused i = false →
+    ∃ t1 e oe, eraseSink t t.maxDepth ⟨i, o⟩ = some (t1, ⟨e, oe⟩) ∧
+      t1.IsNode e oe ∧ i - (o - 1) ≤ e - (oe - 1) ∧ e + (oe - 1) ≤ i + (o - 1) ∧
+      (e ≠ i → oe < o) ∧ (e = i → oe = o) ∧
+      let t2 := t1.setCell e none
+      t2.Shape ∧ t2.rs = t.rs ∧ t2.maxDepth = t.maxDepth ∧ t2.size = t.size ∧
+      t2.toList = SMap.erase t.toList (t.keyAt i) ∧ SMap.Sorted t2.toList ∧ t2.UpClosed ∧
+      (∀ p, e - (oe - 1) ≤ p → p ≤ e + (oe - 1) → t2.cell p = none) ∧
+      (∀ j oj, t2.IsNode j oj → j - (oj - 1) ≤ e - (oe - 1) → e + (oe - 1) ≤ j + (oj - 1) → oe < oj →
+          t2.isUnused j = false) ∧
+      (∀ p, (p < i - (o - 1) ∨ i + (o - 1) < p) → t2.cell p = t.cell p) ∧
+      t2.countRange 1 (t2.rs + 1) + 1 = t.countRange 1 (t.rs + 1) ∧
+      (e ≠ i → t2.isUnused i = false)
+
 end PPLV.COTree
